@@ -1,0 +1,37 @@
+//go:build verif
+
+package sam
+
+// Property-level theorems for /verif/govc, written as client programs of the
+// contracted functions. Never called; verified modularly (each call is
+// replaced by the callee's contract).
+
+//@ theorem C03.tagRoundtrip
+//@   props C03
+//@   requires forall j int :: 0 <= j && j < len(name) ==> name[j] != ':'
+//@   requires dynbyte(val) || dynint(val) || dynfloat(val) || dynstr(val) || dynbytes(val)
+//@   requires dynbytes(val) ==> forall j int :: 0 <= j && j < len(asbytes(val)) ==> 0 <= asbytes(val)[j] && asbytes(val)[j] <= 255
+// An optional field of any supported type (A character, i integer, f float, Z
+// string, H byte array) with a colon-free name, written by tagToText and parsed
+// back by parseTags, yields exactly one entry under that name holding a value
+// of the same dynamic type and the same content.
+func thmTagRoundTrip(name string, val any) {
+	t := tagToText(name, val)
+	m, err := parseTags([]string{t})
+	//@ assert colon1(t) == len(name) && colon2(t) == len(name) + 2
+	//@ assert strEq(tname(t), name)
+	//@ assert dynstr(val) ==> strEq(ttext(t), asstr(val))
+	//@ assert dynint(val) ==> strEq(ttext(t), itoa(asint(val)))
+	//@ assert dynfloat(val) ==> strEq(ttext(t), ffmt(asreal(val)))
+	//@ assert dynbytes(val) ==> strEq(ttext(t), hexenc(arr(asbytes(val)), len(asbytes(val))))
+	//@ assert tagOK(t)
+	//@ assert err == nil && has(m, name)
+	//@ assert forall k string :: has(m, k) ==> k == name
+	//@ assert dynbyte(val) ==> dynbyte(m[name]) && asint(m[name]) == asint(val)
+	//@ assert dynint(val) ==> dynint(m[name]) && asint(m[name]) == asint(val)
+	//@ assert dynfloat(val) ==> dynfloat(m[name]) && asreal(m[name]) == asreal(val)
+	//@ assert dynstr(val) ==> dynstr(m[name]) && asstr(m[name]) == asstr(val)
+	//@ assert dynbytes(val) ==> dynbytes(m[name]) && len(asbytes(m[name])) == len(asbytes(val))
+	//@ assert dynbytes(val) ==> forall j int :: 0 <= j && j < len(asbytes(val)) ==> asbytes(m[name])[j] == asbytes(val)[j]
+	_, _ = m, err
+}
